@@ -5,6 +5,7 @@ package main
 import (
 	"fmt"
 	"go/token"
+	"strings"
 
 	"golang.org/x/tools/go/ssa"
 )
@@ -13,7 +14,7 @@ func init() {
 	register(&PropMeta{
 		ID:          "C11",
 		Level:       "other",
-		Explanation: "Decides the wiring that makes the hand wait for exactly the players it asked: (R1) the event→handler table pairs ready-requested, ante-requested, blinds-requested, round-closed and game-closed with the handler that plays that role; (R2) each request handler drives the ready group Stop → OnCompleted → ResetParticipants → Add* → Start and never pre-readies anyone; (R3) the completion closure of the ready / ante / blinds handler calls exactly ReadyForAll / PayAnte / PayBlinds, and those group steps are called from nowhere else; (R4) ready and ante ask every player of the hand unconditionally, blinds ask a player only under 'blind X > 0 ∧ player holds position X' for matching X ∈ {BB, SB, dealer}; (R5) Ready/Pay signal the ready group with the validated index; (R6) the round-closed handler asks the backend for the next step and publishes the new state only on success, the game-closed handler closes the state channel once; (R7) the ready group is built with the response timeout and a handler that readies every silent participant. NOT decided: termination of every hand; order-independence of responses (inside syncsaga).",
+		Explanation: "Decides the wiring that makes the hand wait for exactly the players it asked: (R1) the event→handler table pairs ready-requested, ante-requested, blinds-requested, round-closed and game-closed with the handler that plays that role; (R2) each request handler drives the ready group Stop → OnCompleted → ResetParticipants → Add* → Start and never pre-readies anyone; (R3) the completion closure of the ready / ante / blinds handler calls exactly ReadyForAll / PayAnte / PayBlinds, and those group steps are called from nowhere else; (R4) ready and ante ask every player of the hand unconditionally, blinds ask a player only under 'blind X > 0 ∧ player holds position X' for matching X ∈ {BB, SB, dealer}; (R5) Ready/Pay signal the ready group with the validated index; (R6) the round-closed handler asks the backend for the next step and publishes the new state only on success, the game-closed handler closes the state channel once; (R7) the ready group is built with a positive constant response timeout and a handler that readies every silent participant, and no call rewrites the hand's ready-group configuration later (timeout set to anything but a positive constant — zero means no limit —, validator or timeout handler replaced, completion forced, a response discarded). NOT decided: termination of every hand; order-independence of responses (inside syncsaga).",
 		Rules: map[string]string{
 			"R1": "event→handler dispatch table, by handler role",
 			"R2": "ready-group typestate in each request handler; nobody pre-readied",
@@ -489,6 +490,43 @@ func checkC11(c *Ctx) {
 	}
 	if !okT {
 		c.Bad("R7", "response-timeout", "-", "the hand's ready group is not built with a positive response timeout and a handler that readies every silent participant")
+	}
+	// the configuration fixed at construction is not rewritten later: a timeout of zero means "no limit" to the
+	// ready group, a replaced validator or a forced completion changes who is waited for
+	rewired := 0
+	for _, f := range p.Funcs {
+		if !inModule(p, f) {
+			continue
+		}
+		for _, ci := range Calls(f) {
+			name := calleeName(ci.Common())
+			if name == "syncsaga.WithValidator" {
+				// only where the hand's group is built
+				builds := false
+				for _, ss := range p.Stores([]*ssa.Function{f}) {
+					builds = builds || (ss.Owner == "game" && ss.Field == "rg")
+				}
+				if !builds {
+					continue
+				}
+			} else if !strings.HasPrefix(name, "syncsaga.ReadyGroup.") || len(ci.Common().Args) == 0 || !p.Sym(ci.Common().Args[0]).PathHas("game", "rg") {
+				continue // another ready group (the table's auto-join group)
+			}
+			switch name {
+			case "syncsaga.ReadyGroup.SetTimeoutInterval":
+				rewired++
+				t, isT := p.Sym(ci.Common().Args[1]).ConstInt()
+				c.Check(isT && t > 0, "R7", "response-timeout-rewrite:"+fnName(f), p.InstrPos(ci),
+					fmt.Sprintf("rewrites the response timeout with the positive constant %d", t),
+					"rewrites the response timeout with a value that is not a positive constant (zero disables the timeout: one withheld response then stalls the hand forever)")
+			case "syncsaga.ReadyGroup.SetValidator", "syncsaga.WithValidator", "syncsaga.ReadyGroup.Done", "syncsaga.ReadyGroup.Discard", "syncsaga.ReadyGroup.OnTimeout":
+				rewired++
+				c.Bad("R7", "ready-group-rewired:"+fnName(f), p.InstrPos(ci), "replaces the ready group's completion test / timeout handler or forces its completion ("+calleeName(ci.Common())+"): who the hand waits for is no longer decided by this rule")
+			}
+		}
+	}
+	if rewired == 0 {
+		c.Ok("R7", "ready-group-not-rewired", "-", "no call rewrites the ready group's timeout, validator or timeout handler, or forces / discards a response")
 	}
 }
 
